@@ -36,7 +36,18 @@ SV(s) == [t |-> "s", s |-> s, i |-> 0]
 IV(n) == [t |-> "i", s |-> <<>>, i |-> n]
 
 (* ---- text ---- *)
-Lower(s) == [k \in DOMAIN s |-> IF s[k] \in 65..90 THEN s[k] + 32 ELSE s[k]]
+\* Case mappings per character (transcribed from str.lower / str.casefold for the alphabet the driver uses;
+\* the driver records the environment's mappings of every character it uses and QueryTrace compares, R4).
+\* LowerC: the lower-case mapping.  FoldC: the case-FOLDING mapping, which differs from it on a few
+\* "special-casing" characters: sharp s (223, capital 7838) -> "ss", final sigma 962 -> 963, ligature fi 64257 -> "fi".
+LowerC(c) == IF c \in 65..90 \/ (c \in 192..222 /\ c # 215) THEN <<c + 32>> ELSE IF c = 7838 THEN <<223>> ELSE <<c>>
+FoldC(c)  == CASE c = 223 \/ c = 7838 -> <<115, 115>> [] c = 962 -> <<963>> [] c = 64257 -> <<102, 105>> [] OTHER -> LowerC(c)
+SpecialCasing(s) == \E k \in DOMAIN s : FoldC(s[k]) # LowerC(s[k])
+RECURSIVE NormR(_, _, _)
+NormR(s, i, fold) == IF i > Len(s) THEN <<>> ELSE (IF fold THEN FoldC(s[i]) ELSE LowerC(s[i])) \o NormR(s, i + 1, fold)
+Lower(s) == IF \A k \in DOMAIN s : s[k] < 128 THEN [k \in DOMAIN s |-> IF s[k] \in 65..90 THEN s[k] + 32 ELSE s[k]]
+            ELSE NormR(s, 1, FALSE)
+CaseFold(s) == IF \A k \in DOMAIN s : s[k] < 128 THEN Lower(s) ELSE NormR(s, 1, TRUE)
 IsPrefix(a, b) == Len(a) <= Len(b) /\ SubSeq(b, 1, Len(a)) = a
 IsSuffix(a, b) == Len(a) <= Len(b) /\ SubSeq(b, Len(b) - Len(a) + 1, Len(b)) = a
 IsSub(a, b)    == Len(a) <= Len(b) /\ \E i \in 0..(Len(b) - Len(a)) : SubSeq(b, i + 1, i + Len(a)) = a
@@ -51,10 +62,15 @@ Less(v, w) == IF v.t = "i" THEN v.i < w.i ELSE LexLess(v.s, w.s, 1)      \* same
 (* ---- atoms: "T" | "F" | "R" (raises).  cr = TRUE is NOT the reference: it is the *)
 (* deviating reading "a case-insensitive atom raises on a non-string value", used   *)
 (* only to name that deviation in rejection signatures ---- *)
+\* What "case-insensitive" does to the two operands: the statement does not say which normalisation; the
+\* reference reading is the lower-case mapping.  A token that carries a field `fold` (see FoldTerm; never
+\* emitted, only built by the trace specification) is evaluated under the other reading, case folding.
+\* The two readings differ only on text with special-casing characters (law FoldLaw).
 Caseless == {"eq", "contains", "startswith", "endswith"}
 AtomEval(k, v0, cr) ==
-    LET v == IF k.ci /\ v0.t = "s" THEN SV(Lower(v0.s)) ELSE v0
-        a == IF k.ci /\ k.arg.t = "s" THEN SV(Lower(k.arg.s)) ELSE k.arg
+    LET N(s) == IF "fold" \in DOMAIN k THEN CaseFold(s) ELSE Lower(s)
+        v == IF k.ci /\ v0.t = "s" THEN SV(N(v0.s)) ELSE v0
+        a == IF k.ci /\ k.arg.t = "s" THEN SV(N(k.arg.s)) ELSE k.arg
         B(x) == IF x THEN "T" ELSE "F"
         str == v.t = "s" /\ a.t = "s"
     IN IF cr /\ k.ci /\ v0.t # "s" THEN "R"
@@ -230,6 +246,32 @@ Algebra(t, u, v) ==
     /\ Truth(And(t, u), v) = Truth(And(u, t), v)
     /\ Truth(Or(t, u), v) = (Truth(t, v) \/ Truth(u, v))
     /\ Eval(And(t, u), v, FALSE).r = (Eval(t, v, FALSE).r \/ Eval(u, v, FALSE).r)
+\* Boolean OBJECTS.  A program holds predicate objects and builds new ones from them (a & b, a | b, ~a); an
+\* object may serve as an operand any number of times and be used as a query before and after.  A store is the
+\* sequence of the terms the objects were built as: a combination is a NEW object, the operands stay what they
+\* were (the truth value of a query is that of the term as written, whatever was built from it later).
+Compose(op, x, y) == CASE op = "not" -> Not(x) [] op = "and" -> And(x, y) [] OTHER -> Or(x, y)
+Combine(store, op, i, j) == Append(store, Compose(op, store[i], store[j]))
+ReuseLaw(b, u, op, side, v) ==
+    LET st0 == <<b, u>>
+        st1 == IF side = "left" THEN Combine(st0, op, 1, 2) ELSE Combine(st0, op, 2, 1)
+        x   == IF side = "left" THEN b ELSE u
+        y   == IF side = "left" THEN u ELSE b
+    IN /\ SubSeq(st1, 1, 2) = st0
+       /\ Truth(st1[3], v) = (CASE op = "not" -> ~Truth(x, v)
+                                [] op = "and" -> Truth(x, v) /\ Truth(y, v)
+                                [] OTHER      -> Truth(x, v) \/ Truth(y, v))
+
+\* the case-folding reading of a term / of the levels of a query
+FoldTerm(term) == [i \in DOMAIN term |-> [op |-> term[i].op, f |-> term[i].f, ci |-> term[i].ci, arg |-> term[i].arg,
+                                          fold |-> TRUE]]
+FoldLevel(q) == [nk |-> q.nk, nlit |-> q.nlit, nterm |-> FoldTerm(q.nterm), am |-> q.am,
+                 aq |-> [m \in DOMAIN q.aq |-> [k |-> q.aq[m].k, lit |-> q.aq[m].lit, term |-> FoldTerm(q.aq[m].term)]]]
+FoldQs(qs) == [j \in DOMAIN qs |-> FoldLevel(qs[j])]
+TermSpecial(term) == \E i \in DOMAIN term : term[i].op = "atom" /\ term[i].arg.t = "s" /\ SpecialCasing(term[i].arg.s)
+\* the two readings of caselessness agree on text without special-casing characters
+FoldLaw(t, v) == (~TermSpecial(t) /\ (v.t = "s" => ~SpecialCasing(v.s))) => Eval(FoldTerm(t), v, FALSE) = Eval(t, v, FALSE)
+
 \* a case-insensitive atom is the plain atom on lower-cased operands; on a non-string value it
 \* is the plain atom (requirement CompiledEqualsInterpreted: no evaluator may deviate from Truth
 \* when Eval(..).r is FALSE)
